@@ -81,6 +81,9 @@ def unit(rng, target, n):
             ('_Static_assert(0x100000000, ""); _Static_assert(1ull << 40, ""); _Static_assert(-0x7fffffff00000000ll, ""); _Static_assert(0x8000000000000000u, ""); _Static_assert(sizeof(char[3][65536][65536]), ""); long long xsa = 1;', ['xsa'], le(1, m.LLONG)),
             ('long long xdv[] = { 5ull % 18446744073709551615ull, 18446744073709551615ull / 18446744073709551615ull, 7ul / -1ul, 7ul % ~0ul, -8ll / -1ll, -8ll % -1ll };', ['xdv'],
              le(5, m.LLONG) + le(1, m.LLONG) + le(0, m.LLONG) + le(7, m.LLONG) + le(8, m.LLONG) + le(0, m.LLONG)),
+            # the truth value of a floating constant is "compares unequal to 0", not "has a non-zero bit": negative zero is false, the smallest subnormal is true
+            ('long long xnz[] = { 1 && -0.0, 0 || -0.0, (1 && -0.0) ? 10 : 20, -0.0 && 1, -0.0 || 0, !-0.0, -0.0 ? 1 : 2, 1 && 0.0, 0 || -0.0f, 1 && 1e-320, 0 || 0x1p-1074, (_Bool)-0.0, (_Bool)1e-320, -0.0 == 0, '
+             '1 && (0.0 * -1), 0 || (0.0f / -5), (1 || -0.0) + (0 && -0.0), 2 && -0.0f ? 3 : 4, !(0 || -0.0), -0.0f ? 5 : 6, 1 && 1e-46f, (_Bool)(float)1e-46, (_Bool)-0.0f, !1e-320 };', ['xnz'], None),
             # 64-bit integers beside the midpoint of two floats or doubles: one rounding, straight to the target type (the references decide)
             ('float xfc[] = { (float)0x100000100000001, (float)0x20000000000001, (float)0xfffffffffffffbff, (float)0x8000000000000400, (float)16777217, (float)-16777217, (float)9007199254740993, '
              '(float)0xffffff7fffffffff, (float)-0x100000100000001ll, 0x100000100000001, 0x7fffffbfffffffff, -0x7fffffbfffffffff, 0x4000001fffffffff };', ['xfc'], None),
